@@ -1,27 +1,45 @@
 (* C17 — Appendable files behave as a persistent byte log.
    This file contains only the property theorems, each closed by `exact`.
 
-   Models: App/Single.v (singleapp.AppendableFile), App/Multi.v (multiapp.MultiFileAppendable),
-   specification: App/Spec.v (ONE growable byte array).  `s_run` / `spec_run` give the
-   list of outputs (returned offsets, byte strings, sizes, error classes) of an operation
-   sequence; `out_match` is equality, except where the specification leaves the result open
-   (reads below a DiscardUpto offset).
-
-   Since the fix "singleapp readAt never reads the file beyond the logical file offset" reads are
-   exact.  What is left: a file may hold bytes beyond fileOffset (SetOffset below the flushed size
-   never truncates; preallocation) and Open takes the file end as the size, so a reopen in that
-   situation finds a larger size (`s_risky`, `s_clean` = no such reopen); multiapp's SetOffset
-   into an earlier chunk leaves the later chunk FILES, which a ReadAt running past the end of the
-   current chunk walks into and which Open takes as current (`m_risky`, `m_clean`).
-   Not in the models: compression, failing OS calls, handle-cache eviction, concurrency. *)
+   Models: App/Single.v, App/Multi.v and App/Fixed.v (SetOffset as it is since /repo commit 09014a8:
+   a rewind below the flushed size truncates the file, a rewind into an earlier chunk removes the
+   chunk files that follow; `s_run_fx` / `m_run_fx`), specification: App/Spec.v (ONE growable byte
+   array).  The runs give the list of outputs (returned offsets, byte strings, sizes, error classes,
+   the full content of a Copy opened read-only) of an operation sequence; `out_match` is equality,
+   except where the specification leaves the result open (reads below a DiscardUpto offset).
+   Not in the models: compression, failing OS calls, handle-cache eviction, concurrency.
+   At the end: what was false before 09014a8, kept as refutations of the pre-fix models. *)
 From V Require Import App.Spec App.Single App.SingleProofs App.SingleSim.
 From V Require Import App.Multi App.MultiProofs App.MultiRead App.MultiSim.
+From V Require Import App.Fixed App.FixedProofs App.FixedMulti.
 
-(* singleapp: for EVERY operation sequence and every valid option combination (buffer size,
-   retryableSync, autoSync incl. the ErrBufferFull mode, preallocation, read-only reopen), as long
-   as no reopen happens — and no Copy is made — while the file is longer than fileOffset, every
-   returned offset / byte string / size / error class / copy content equals the byte array's
-   (the result of Copy is everything a read-only Open of the copied file holds) *)
+(* singleapp (not preallocated) IS the byte array: for EVERY operation sequence — appends, reads,
+   rewinds below the flushed size, flush/sync, discard, read-only switch, close, REOPEN with any
+   valid options, COPY at any point — and every option combination (buffer size, retryableSync,
+   autoSync incl. ErrBufferFull), every returned offset / byte string / size / error class / copy
+   content equals the byte array's.  No clean-state premise. *)
+Theorem C17_single_refines_log : forall meta o ops,
+  opts_valid o = true ->
+  Forall2 out_match (s_run_fx false (s_create 0 meta o) ops) (spec_run (log_init (zeros 0) meta o) ops).
+Proof. exact single_refines_log_fixed. Qed.
+Print Assumptions C17_single_refines_log.
+
+(* multiapp (not preallocated) IS the byte array: every operation sequence (rewinds into earlier
+   chunks, reopen, Copy included), every chunk size > 0, flush-when-full or retryableSync+autoSync *)
+Theorem C17_multi_refines_log : forall fs meta o ops,
+  0 < fs -> opts_valid o = true -> nocap o = true -> ops_nocap ops = true ->
+  Forall2 out_match (m_run_fx (m_create fs false meta o) ops) (spec_run (log_init (zeros 0) meta o) ops).
+Proof. exact multi_refines_log_fixed. Qed.
+Print Assumptions C17_multi_refines_log.
+
+(* preallocated singleapp files are not truncated (they keep their size by design):
+   the model is the one of Single.v, to which the theorems below apply *)
+Theorem C17_single_prealloc_unchanged : forall s ops, s_run_fx true s ops = s_run s ops.
+Proof. exact single_fixed_prealloc_same. Qed.
+Print Assumptions C17_single_prealloc_unchanged.
+
+(* singleapp incl. preallocation: exact outputs as long as no reopen / Copy happens while the
+   file is longer than the offset; within one session unconditional up to the content of such a Copy *)
 Theorem C17_single_refines_log_partial : forall p meta o ops,
   opts_valid o = true ->
   s_clean (s_create p meta o) ops = true ->
@@ -29,112 +47,51 @@ Theorem C17_single_refines_log_partial : forall p meta o ops,
 Proof. exact single_refines_log_partial. Qed.
 Print Assumptions C17_single_refines_log_partial.
 
-(* within one session (any sequence without a reopen, Copy included anywhere) the refinement needs no
-   premise: rewinds below the flushed size, stale tails and preallocation included, every output
-   equals the byte array's, and a Copy changes nothing that is observable afterwards.  Only the
-   CONTENT of a copy made while the file holds bytes beyond the current offset may carry those bytes
-   behind the byte array (`out_match_c`: impl = OCopy (bs ++ t) where the specification has OCopy bs) *)
 Theorem C17_single_refines_log_session : forall p meta o ops,
   opts_valid o = true -> no_reopen ops = true ->
   Forall2 out_match_c (s_run (s_create p meta o) ops) (spec_run (log_init (zeros p) meta o) ops).
 Proof. exact single_refines_log_session. Qed.
 Print Assumptions C17_single_refines_log_session.
 
-(* the full statement (any reopen allowed) is false on the current code: append 10 bytes, Flush,
-   SetOffset 4, Close, reopen, Size = 10 where the byte array has 4 bytes *)
-Theorem C17_single_refines_log_refuted : exists p meta o ops,
-  opts_valid o = true /\
-  ~ Forall2 out_match (s_run (s_create p meta o) ops) (spec_run (log_init (zeros p) meta o) ops).
-Proof. exact single_refines_log_refuted. Qed.
-Print Assumptions C17_single_refines_log_refuted.
-
-(* rewinding then appending overwrites: in EVERY reachable state (stale tail or not, flushed or
-   still buffered), when SetOffset n and Append bs succeed, the append is at offset n and reading
-   |bs| bytes at n returns bs *)
-Theorem C17_single_rewind_then_append_overwrites : forall p meta o ops n bs off,
+(* along EVERY run the write-buffer indices stay in range: no Go slice expression of AppendableFile can panic *)
+Theorem C17_single_buffer_indices_in_range : forall pre p meta o ops,
   opts_valid o = true ->
-  let s := s_state (s_create p meta o) ops in
-  s_run s [SetOffset n; Append bs] = [OOk; OApp off (len bs)] ->
-  s_run s [SetOffset n; Append bs; ReadAt (len bs) n] = [OOk; OApp n (len bs); ORead bs false].
-Proof. exact single_rewind_then_append_overwrites. Qed.
-Print Assumptions C17_single_rewind_then_append_overwrites.
+  let h := s_h (s_state_fx pre (s_create p meta o) ops) in
+  h_fl h <= h_uw h /\ h_uw h <= len (h_wbuf h) /\ h_fl h <= h_fo h.
+Proof. exact single_buffer_indices_in_range_fixed. Qed.
+Print Assumptions C17_single_buffer_indices_in_range.
 
-(* after Flush, Close and reopening with any valid options, every read and the size are what
-   they were before the Close, provided the file holds nothing beyond the flushed offset *)
-Theorem C17_single_reopen_same_bytes_and_size_partial : forall p meta o ops o' n off,
-  opts_valid o = true -> opts_valid o' = true -> 0 < n ->
-  let s1 := s_state (s_create p meta o) (ops ++ [Flush]) in
-  h_closed (s_h s1) = false ->
-  h_tail (s_h s1) (s_file s1) = false ->
-  let s2 := s_state s1 [Close; Reopen o'] in
-  snd (s_step s2 (ReadAt n off)) = snd (s_step s1 (ReadAt n off)) /\
-  snd (s_step s2 Size) = snd (s_step s1 Size).
-Proof. exact single_reopen_same_bytes_and_size_partial. Qed.
-Print Assumptions C17_single_reopen_same_bytes_and_size_partial.
+(* discarding a prefix never affects bytes at or after the given offset: in ANY state a successful DiscardUpto(n) changes the
+   result of no ReadAt at an offset >= n *)
+Theorem C17_multi_discard_keeps_suffix : forall m n k off,
+  0 < m_fs m -> snd (m_step_fx m (Discard n)) = OOk -> n <= off ->
+  snd (m_step_fx (fst (m_step_fx m (Discard n))) (ReadAt k off)) = snd (m_step_fx m (ReadAt k off)).
+Proof. exact multi_discard_keeps_suffix. Qed.
+Print Assumptions C17_multi_discard_keeps_suffix.
 
-(* the proviso is needed on the current code: append 10, Flush, SetOffset 4 (Size 4), Close,
-   reopen: Size is 10 *)
-Theorem C17_single_reopen_same_size_refuted : exists p meta o ops o',
+(* ---------------- before 09014a8 (historical: models `s_run` / `m_run` with the old SetOffset) ----------------
+   SetOffset never truncated and never removed chunk files; these witnesses are what the repair removed.
+   The directed scenarios of harness/c17 replay them on the real code at every run: a recurrence is
+   reported as a violation. *)
+Theorem C17_before_09014a8_single_reopen_same_size_refuted : exists p meta o ops o',
   opts_valid o = true /\ opts_valid o' = true /\
   let s1 := s_state (s_create p meta o) (ops ++ [Flush]) in
   h_closed (s_h s1) = false /\
   snd (s_step s1 Size) = ON 4 /\
   snd (s_step (s_state s1 [Close; Reopen o']) Size) = ON 10.
 Proof. exact single_reopen_same_size_refuted. Qed.
-Print Assumptions C17_single_reopen_same_size_refuted.
+Print Assumptions C17_before_09014a8_single_reopen_same_size_refuted.
 
-(* along EVERY run the write-buffer indices stay in range: no Go slice expression of
-   AppendableFile can panic *)
-Theorem C17_single_buffer_indices_in_range : forall p meta o ops,
-  opts_valid o = true ->
-  let h := s_h (s_state (s_create p meta o) ops) in
-  h_fl h <= h_uw h /\ h_uw h <= len (h_wbuf h) /\ h_fl h <= h_fo h.
-Proof. exact single_buffer_indices_in_range. Qed.
-Print Assumptions C17_single_buffer_indices_in_range.
-
-(* ---------------- multiapp ---------------- *)
-
-(* multiapp: for EVERY operation sequence, every chunk size > 0 (appends spanning any number of
-   chunks), buffer size, flush-when-full or retryableSync+autoSync, preallocation, read-only reopen:
-   as long as no step observes stale chunk files (`m_clean`: no ReadAt running past the end of the
-   current chunk while chunk files beyond the current one exist; no reopen and no Copy while such
-   files exist or the current chunk file is longer than its offset), every output — also the full
-   content of a Copy opened read-only — equals the byte array's.  (`nocap`: not retryableSync without autoSync, see trusted_base.) *)
-Theorem C17_multi_refines_log_partial : forall fs pre meta o ops,
-  0 < fs -> opts_valid o = true -> nocap o = true -> ops_nocap ops = true ->
-  m_clean (m_create fs pre meta o) ops = true ->
-  Forall2 out_match (m_run (m_create fs pre meta o) ops)
-                    (spec_run (log_init (zeros (if pre then fs else 0)) meta o) ops).
-Proof. exact multi_refines_log_partial. Qed.
-Print Assumptions C17_multi_refines_log_partial.
-
-(* without `m_clean` it is false on the current code: chunk size 4, append 10 bytes, SetOffset 2
-   (Size 2), ReadAt(2 bytes, 4) returns "45" from the stale chunk file 1 *)
-Theorem C17_multi_refines_log_refuted : exists fs pre meta o ops,
-  0 < fs /\ opts_valid o = true /\ nocap o = true /\ ops_nocap ops = true /\
-  ~ Forall2 out_match (m_run (m_create fs pre meta o) ops)
-                      (spec_run (log_init (zeros (if pre then fs else 0)) meta o) ops).
-Proof. exact multi_refines_log_refuted. Qed.
-Print Assumptions C17_multi_refines_log_refuted.
-
-(* "reopening finds the same size" is false on the current code after a rewind into an earlier
-   chunk: chunk size 4, append 10 bytes, SetOffset 2 (Size 2), Close, reopen: Size 10 *)
-Theorem C17_multi_reopen_same_size_refuted : exists fs pre meta o o' bs,
+Theorem C17_before_09014a8_multi_reopen_same_size_refuted : exists fs pre meta o o' bs,
   0 < fs /\ opts_valid o = true /\ opts_valid o' = true /\
   m_run (m_create fs pre meta o) [Append bs; SetOffset 2; Size; Close; Reopen o'; Size] =
   [OApp 0 10; OOk; ON 2; OOk; OOk; ON 10].
 Proof. exact multi_reopen_same_size_refuted. Qed.
-Print Assumptions C17_multi_reopen_same_size_refuted.
+Print Assumptions C17_before_09014a8_multi_reopen_same_size_refuted.
 
-(* discarding a prefix never affects bytes at or after the given offset: in ANY state of the
-   multiapp model, a successful DiscardUpto(n) changes the result of no ReadAt at an offset >= n
-   (singleapp's DiscardUpto changes nothing at all) *)
-Theorem C17_multi_discard_keeps_suffix : forall m n k off,
-  0 < m_fs m -> snd (m_step m (Discard n)) = OOk -> n <= off ->
-  snd (m_step (fst (m_step m (Discard n))) (ReadAt k off)) = snd (m_step m (ReadAt k off)).
-Proof. exact multi_discard_keeps_suffix. Qed.
-Print Assumptions C17_multi_discard_keeps_suffix.
-
-Theorem C17_single_discard_keeps_everything : forall s n, fst (s_step s (Discard n)) = s.
-Proof. exact single_discard_keeps_everything. Qed.
-Print Assumptions C17_single_discard_keeps_everything.
+Theorem C17_before_09014a8_multi_stale_chunk_read_refuted : exists fs pre meta o ops,
+  0 < fs /\ opts_valid o = true /\ nocap o = true /\ ops_nocap ops = true /\
+  ~ Forall2 out_match (m_run (m_create fs pre meta o) ops)
+                      (spec_run (log_init (zeros (if pre then fs else 0)) meta o) ops).
+Proof. exact multi_refines_log_refuted. Qed.
+Print Assumptions C17_before_09014a8_multi_stale_chunk_read_refuted.
